@@ -93,7 +93,7 @@ def run(seed, tier, lean) -> Result:
                       '(1-8 assets, shared / cyclic / self links); the child sets of every node are compared with the reference set '
                       'semantics (bounds closure+ .. closure*) and with the Lean model; non-trivial = a set operator or transitive '
                       'step occurs and the graph has an edge between different assets')
-    n = 300 if tier == 'quick' else 20000
+    n = 300 if tier == 'quick' else 1800
     cases = []
     for i in range(n):
         r = random.Random(rnd.getrandbits(48))
@@ -101,7 +101,7 @@ def run(seed, tier, lean) -> Result:
         # (the shape in which a resolver that aliases the specification leaks expressions between levels)
         spec = chain_language(r) if i % 4 == 3 else LangGen(r).gen()
         res.bump('chain_language' if i % 4 == 3 else 'random_language')
-        for _ in range(2 if tier == 'quick' else 3):
+        for _ in range(2):
             cases.append((spec, gen_model(r, spec)))
     model = None
     if lean['build_ok']:
